@@ -444,11 +444,11 @@ def entry_variant(p):
     names = [v['name'] for v in ent['variants']] if ent else ['Occupied', 'Vacant']
     selftag = p.arg[0]
     for e in p.events:
-        if e[0] == 'variant' and e[1] == selftag:
+        if e[0] == 'variant' and isinstance(e[1], tuple) and e[1][:len(selftag)] == selftag and len(e[1]) <= len(selftag) + 1:
             nm = names[e[2]]
             if nm == 'Occupied':
                 return ('occ', p.variant_fields.get(e[2]))
-            return ('vac', selftag + (e[2], 0, 'key'))
+            return ('vac', e[1] + (e[2], 0, 'key'))
     return None
 
 
@@ -532,6 +532,24 @@ def h_or_insert(kind):
                     % (' and receive the entry key' if kind == 'with_key' else ''), p)
             _vacant_insert(ctx, p, K, None, want)
     return h
+
+
+def h_entry_key(ctx, p):
+    """Entry::key(): the stored key of the occupied slot / the key the vacant entry was created with"""
+    nm = 'key'
+    ev = entry_variant(p)
+    if ev is None:
+        ctx.req('OUT', False, nm, 'cannot tell which Entry variant this path handles', p)
+        return
+    if ev[0] == 'occ':
+        ctx.classes['occupied'] += 1
+        ctx.req('OUT', ev[1] is not None and slot_ref(p.val, p.z, p.mid, ev[1], (0,)) and p.untouched(), nm + ':occupied',
+                'must return a reference to the key stored in the entry\'s own slot', p, props=ctx.props | {'C12'})
+        return
+    ctx.classes['vacant'] += 1
+    t = p.E.rtag(p.st, p.val)
+    ctx.req('OUT', tag_eq(p.z, t, ev[1]) and p.untouched(), nm + ':vacant',
+            'must return a reference to the key the vacant entry was created with', p)
 
 
 def h_and_modify(ctx, p):
@@ -2010,6 +2028,7 @@ HANDLERS.update({
     (ENT, None, 'or_insert_with_key'): ({'C11', 'C12'}, h_or_insert('with_key')),
     (ENT, None, 'or_default'): ({'C11', 'C12'}, h_or_insert('default')),
     (ENT, None, 'and_modify'): ({'C11'}, h_and_modify),
+    (ENT, None, 'key'): ({'C11'}, h_entry_key),
     (OCC, None, 'key'): ({'C11', 'C12'}, h_occ('key')),
     (OCC, None, 'get'): ({'C11'}, h_occ('get')),
     (OCC, None, 'get_mut'): ({'C11'}, h_occ('get_mut')),
